@@ -331,7 +331,7 @@ Program gen_program(uint64_t seed, const GenParams &gp, const std::string &profi
                         Op re; re.kind = OP_OPEN; re.file = fi; re.name = "/sim/f" + std::to_string(fi) + ".nc"; re.a[0] = 1; emit(re);
                     } else define_phase(false);
                 }
-            } else if (gp.fill && v.isrec) { o.kind = OP_FILL_VAR_REC; o.a[0] = rng.range(0, f.numrecs + 1); emit(o); }
+            } else if (gp.fill && v.isrec) { o.kind = OP_FILL_VAR_REC; o.a[0] = rng.range(0, f.numrecs + 1); if (gp.fill_rec_split && np > 1 && !gm.safe_mode && rng.chance(0.3)) o.a[1] = rng.range(1, 3); emit(o); }
             else if (gp.meta_heavy) {
                 // data-mode metadata updates: rename to a shorter name, overwrite an attribute with a value whose padded size does not grow
                 auto shorter = [&](const std::string &nm) { size_t cut = std::max<size_t>(1, nm.size() - 1 - (nm.size() > 3 ? rng.below(2) : 0)); while (cut > 0 && ((unsigned char)nm[cut] & 0xC0) == 0x80) cut--; return cut == 0 ? nm : nm.substr(0, cut); };   // cut at a character boundary (names may consist of multi-byte characters only)
